@@ -16,6 +16,7 @@ import sys
 import importlib
 import tempfile
 import warnings
+from vlib.monitors import SUSPEND
 
 DRIVERS = {
     'C01': 'checks.c01_yanny_roundtrip', 'C02': 'checks.c02_yanny_syntax', 'C03': 'checks.c03_yanny_history',
@@ -62,7 +63,7 @@ class Online:
 
         @functools.wraps(orig)
         def wrapper(*a, **k):
-            if not online.active or online.busy:
+            if not online.active or online.busy or SUSPEND[0]:
                 return orig(*a, **k)
             st = None
             if pre is not None:
